@@ -926,7 +926,7 @@ def readResponse (fuel : Nat) (cfg : Cfg) : P Unit := do
   if !tag.isEmpty then readTagged fuel cfg tag typ else do readData fuel cfg typ; expectCRLF
 
 inductive DecClass where | none | err | panic | unmod | nofuel
-deriving BEq
+deriving DecidableEq, BEq
 
 /-- client.go read: responses until the input ends or one fails -/
 def readLoop (fuel : Nat) (cfg : Cfg) : Nat → Dec → (DecClass × Dec)
@@ -988,6 +988,9 @@ structure Obs where
   deliveredDepth : Nat
   /-- the SEARCH result set, if any was handed over -/
   all : Option NumSet.Set
+  /-- the COPYUID sets, if any were handed over -/
+  src : Option NumSet.Set
+  dst : Option NumSet.Set
 
 def initCS (tag : Bytes) (kind : Kind) : CS :=
   { tag := tag, kind := kind,
@@ -1003,7 +1006,7 @@ def clientParse (cfg : Cfg) (tag : Bytes) (kind : Kind) (inp : Bytes) : Obs :=
   let uni := sortStrs cs.uni
   { cmd := cmd, dec := dc, data := cs.data cmd, uni := if uni.isEmpty then "-" else joinWith "," uni,
     cost := d.cost, maxDepth := d.maxDepth, delivered := cs.delivered, deliveredDepth := cs.deliveredDepth,
-    all := cs.sAll.map (·.2) }
+    all := cs.sAll.map (·.2), src := cs.src, dst := cs.dst }
 
 namespace Legacy
 /-- before the repairs: readBody outside the depth limit, 0 accepted as a message number -/
